@@ -1,9 +1,21 @@
 (** C05 - executable comparison between the model Addr/Lock.v, instantiated
     with the facts regenerated from the source (Generated/LockFacts.v), and
     what the correspondence harness (harness/cmd/c05) observed on the real
-    waddrmgr: the result class of every operation / probe, the two flags,
-    and the liveness of every clear-text buffer (hook
-    Manager.VerifSecretBuffers plus accountInfo.last{External,Internal}Addr). *)
+    waddrmgr.  Compared is what the theorems of Properties/C05.v depend on:
+
+    - the result class of every operation / probe - where the property allows
+      either of two errors (a manager that is locked AND watching-only may
+      answer "locked" or "watching-only", whichever guard the code tests
+      first) either is accepted ([rc_ok]);
+    - the two flags, at every snapshot;
+    - once the manager is locked or watching-only: every clear-text buffer the
+      implementation still holds live must be one the model says is live
+      (hook Manager.VerifSecretBuffers plus accountInfo.last*Addr), and the
+      live buffers in objects the manager has DROPPED - found through the
+      references the harness retains - must be explained, class by class, by
+      the model's record [gone].  While the manager is unlocked the contents
+      of its memory are NOT compared: no theorem depends on when exactly a
+      key is decrypted (decrypting lazily would be as good). *)
 From Verif Require Import Base.Prelude Generated.LockFacts Addr.Lock.
 Local Open Scope N_scope.
 
@@ -16,12 +28,26 @@ Definition the_facts : facts :=
      f_keyless_not_queued := keyless_addresses_not_queued;
      f_change_rejects_empty := change_rejects_empty_private;
      f_privkey_checks_first := privkey_checks_lock_first;
-     f_unlock_preloads := unlock_loads_queued_accounts |}.
+     f_unlock_preloads := unlock_loads_queued_accounts;
+     f_z_acct := lock_zeroes_account_keys;
+     f_z_key := address_lock_zeroes_key;
+     f_z_script := address_lock_zeroes_script;
+     f_z_cache := lock_zeroes_cached_keys;
+     f_z_mgr := lock_zeroes_manager_keys;
+     f_e_markused := markused_wipes_evicted;
+     f_e_invalidate := invalidate_wipes_evicted;
+     f_e_next := next_wipes_replaced_last;
+     f_e_unlock := unlock_leaves_no_cleartext_in_dropped;
+     f_e_lru := lru_eviction_zeroes;
+     f_cache_cap := priv_key_cache_size |}.
 
 Definition all_true : facts :=
   {| f_cache_checked := true; f_lock_purges_cache := true; f_lock_wipes_wscripts := true;
      f_lock_wipes_last := true; f_unlock_skips_keyless := true; f_keyless_not_queued := true;
-     f_change_rejects_empty := true; f_privkey_checks_first := true; f_unlock_preloads := true |}.
+     f_change_rejects_empty := true; f_privkey_checks_first := true; f_unlock_preloads := true;
+     f_z_acct := true; f_z_key := true; f_z_script := true; f_z_cache := true; f_z_mgr := true;
+     f_e_markused := true; f_e_invalidate := true; f_e_next := true; f_e_unlock := true; f_e_lru := true;
+     f_cache_cap := 10000 |}.
 
 (* One clear-text buffer, named as the hook names it (canonicalised). *)
 Inductive slot :=
@@ -51,7 +77,12 @@ Definition slot_eqb (a b : slot) : bool :=
    processed before the failure (the model processes none).  The only buffers
    that can show the difference are the [SLast] ones; they are not compared
    until the next restart. *)
-Record snap := { sn_locked : bool; sn_watch : bool; sn_relaxed : bool; sn_slots : list (slot * bool) }.
+(* [sn_gone]: per class, how many buffers in objects the manager has dropped
+   still hold clear text (observed through the retained references; reported in
+   locked / watching-only snapshots).  [sn_other]: such buffers of a class the
+   model does not know. *)
+Record snap := { sn_locked : bool; sn_watch : bool; sn_relaxed : bool; sn_slots : list (slot * bool);
+                 sn_gone : list (gclass * nat); sn_other : nat }.
 
 Definition model_slots (nsc : nat) (m : mem) : list (slot * bool) :=
   [ (SMaster, k_master (mk m)); (SCPriv, k_cpriv (mk m)); (SCScript, k_cscript (mk m));
@@ -68,8 +99,11 @@ Definition model_slots (nsc : nat) (m : mem) : list (slot * bool) :=
   ++ map (fun sc => (SCache sc, existsb (fun p => let '(s1, _, _, _) := p in s1 =? sc) (m_cache m)))
          (map N.of_nat (seq 0 nsc)).
 
+Definition all_classes : list gclass := [GKey; GAcct; GScript; GCache].
+
 Definition model_snap (nsc : nat) (s : state) : snap :=
-  {| sn_locked := locked s; sn_watch := watch s; sn_relaxed := false; sn_slots := model_slots nsc (sm s) |}.
+  {| sn_locked := locked s; sn_watch := watch s; sn_relaxed := false; sn_slots := model_slots nsc (sm s);
+     sn_gone := map (fun c => (c, gone_live_count c s)) all_classes; sn_other := 0 |}.
 
 Definition entry_eqb (a b : slot * bool) : bool := slot_eqb (fst a) (fst b) && bool_eqb (snd a) (snd b).
 Definition incl_b (l1 l2 : list (slot * bool)) : bool :=
@@ -81,12 +115,32 @@ Definition incl_b (l1 l2 : list (slot * bool)) : bool :=
 Definition is_last (e : slot * bool) : bool :=
   match fst e with SLast _ _ _ | SAcct _ _ => true | _ => false end.
 
+Definition slot_secret (sl : slot) : bool := match sl with SScript _ _ sec => sec | _ => true end.
+
+(* every secret buffer observed live is live in the model *)
+Definition live_explained (obs model : list (slot * bool)) : bool :=
+  forallb (fun e => negb (snd e) || negb (slot_secret (fst e)) || existsb (entry_eqb e) model) obs.
+
+Definition gclass_eqb (a b : gclass) : bool :=
+  match a, b with GKey, GKey | GAcct, GAcct | GScript, GScript | GCache, GCache => true | _, _ => false end.
+
+(* every dropped buffer observed live is accounted for by the model's record,
+   class by class (the model may be pessimistic about what had been decrypted
+   by the time the object was dropped; it may not miss a survivor) *)
+Definition gone_explained (obs model : list (gclass * nat)) : bool :=
+  forallb (fun e => match find (fun m => gclass_eqb (fst m) (fst e)) model with
+                    | Some m => (snd e <=? snd m)%nat
+                    | None => (snd e =? 0)%nat
+                    end) obs.
+
 (* [a]: observed, [b]: model *)
 Definition snap_eqb (a b : snap) : bool :=
   let f l := if sn_relaxed a then filter (fun e => negb (is_last e)) l else l in
   bool_eqb (sn_locked a) (sn_locked b) && bool_eqb (sn_watch a) (sn_watch b)
-  && (length (f (sn_slots a)) =? length (f (sn_slots b)))%nat
-  && incl_b (f (sn_slots a)) (f (sn_slots b)) && incl_b (f (sn_slots b)) (f (sn_slots a)).
+  && (if sn_locked a || sn_watch a
+      then live_explained (f (sn_slots a)) (f (sn_slots b))
+           && gone_explained (sn_gone a) (sn_gone b) && (sn_other a =? 0)%nat
+      else true).
 
 Definition rc_eqb (a b : rc) : bool :=
   match a, b with
@@ -95,6 +149,14 @@ Definition rc_eqb (a b : rc) : bool :=
   | ROther, ROther | RPanic, RPanic => true
   | _, _ => false
   end.
+
+Definition lockerr_b (r : rc) : bool := match r with RLocked | RWatchOnly => true | _ => false end.
+
+(* In a state that is locked or watching-only the property asks for "a locked
+   or watching-only error": which of the two is returned (a matter of which
+   guard the code tests first) is not compared. *)
+Definition rc_ok (s : state) (obs model : rc) : bool :=
+  rc_eqb obs model || ((locked s || watch s) && lockerr_b obs && lockerr_b model).
 
 (* One step of an observed trace. *)
 Inductive tstep :=
@@ -110,7 +172,7 @@ Fixpoint first_diff (F : facts) (nsc : nat) (s : state) (i : nat) (l : list tste
   | [] => None
   | TOp o r :: l' =>
     let '(s1, r1) := step F s o in
-    if rc_eqb r r1 then first_diff F nsc s1 (S i) l' else Some (i, 1%nat)
+    if rc_ok s r r1 then first_diff F nsc s1 (S i) l' else Some (i, 1%nat)
   | TSnap sn :: l' =>
     if snap_eqb sn (model_snap nsc s) then first_diff F nsc s (S i) l' else Some (i, 2%nat)
   end.
